@@ -123,7 +123,7 @@ fn describe_frame(frame: &[u8]) -> &'static str {
     "plain"
 }
 
-fn gen_filter(r: &mut Rng, trace: &[Timed]) -> FilterSpec {
+pub fn gen_filter(r: &mut Rng, trace: &[Timed]) -> FilterSpec {
     let mut ips: Vec<IpAddr> = vec![];
     let mut ports: Vec<u16> = vec![];
     for p in trace {
